@@ -1,8 +1,1177 @@
-//! stub — to be implemented
-use crate::common::{Ctx, Report};
+//! C02 — every received request gets exactly one well-formed answer (fault enumeration).
+//!
+//! A *cell* is one real sozu worker (HTTP + HTTPS listeners, front/back timeouts 2 s, connect and
+//! request timeouts 1 s) with one hostname per routing outcome and three scripted backends whose
+//! behaviour is chosen per request through the request path. Scenarios (fault x moment x protocol
+//! pair x multiplexing) are dealt to the cells; inside a cell several scenarios run concurrently so
+//! that the 1-2 s timeouts overlap. The oracle is written from the property statement:
+//!
+//! 1. exactly once: a request gets one answer on its connection / stream, never two;
+//! 2. a proxy-generated answer carries the status the statement assigns to the injected cause;
+//! 3. an abort (close / RST_STREAM / GOAWAY) is only acceptable once a response has started, and a
+//!    message the strict decoder sees as complete must carry the whole body the backend declared;
+//! 4. healthy siblings (earlier keep-alive requests, other H2 streams) complete intact and in time;
+//! 5. nothing stays pending beyond the governing timeout + 3 s (re-run alone before it counts);
+//! 6. the worker never panics.
+//!
+//! Signatures (all under `answers/`): `wrong_status/<cause>/got<code>`, `no_answer/<cause>/<pair>`,
+//! `two_answers/<cause>/<pair>`, `second_answer_spliced_into_body/<pair>/<framing>`,
+//! `truncated_presented_complete/<pair>/<framing>`, `corrupted_body/<pair>`, `malformed_answer/<pair>`,
+//! `unanswered/<cause>/<pair>`, `sibling_harmed/<keepalive|h2streams>/<pair>/<how>`,
+//! `healthy_request_failed/keepalive/<pair>/<how>`, `request_never_completed_towards_backend/<pair>`,
+//! `h2_frame_sequence/<ledger kind>`; a sozu panic is `panic@file:line`.
+//!
+//! Debugging aids: `--opt only=<scenario,..|group>` runs a subset, `--opt dump=1` prints every
+//! outcome, `--opt extra_wait_ms=N` keeps waiting beyond the bound, `VH_SOZU_LOG=info` shows sozu's
+//! log, `C02_H2C_TRACE=1` the h2c backend's frame trace.
 
-pub fn run(_ctx: &Ctx) -> Report {
-    let mut rep = Report::new("exploration", "not implemented");
-    rep.broken("check not implemented yet");
+mod backend;
+mod client;
+mod spec;
+
+use std::{
+    collections::BTreeMap,
+    net::{IpAddr, Ipv4Addr, SocketAddr},
+    sync::{
+        Arc, RwLock,
+        atomic::{AtomicUsize, Ordering},
+    },
+    time::Duration,
+};
+
+use serde_json::{Value, json};
+use sozu_command_lib::{config::ListenerBuilder, proto::command::Cluster};
+
+use self::{
+    backend::{Att, BackState},
+    client::{End, H1Client, Outcome, run_h2},
+    spec::*,
+};
+use crate::{
+    common::{Ctx, Report, Rng, guard, par_cases},
+    lab::{self, Worker, WorkerOpts},
+    peers::{
+        self, BackendServer, IoProgram,
+        h2::{self, H2Conn, Role},
+        tls,
+    },
+};
+
+const LANES: usize = 4;
+/// held shared by every normal scenario, exclusively by the re-run of a late one
+static ALONE: RwLock<()> = RwLock::new(());
+static RERUNS: AtomicUsize = AtomicUsize::new(0);
+
+const CERT_NAMES: [&str; 9] =
+    ["ok.test", "f1.test", "f2.test", "deny.test", "nobackend.test", "refused.test", "lim.test", "noroute.test", "okb.test"];
+
+struct Cell {
+    ip: Ipv4Addr,
+    front: SocketAddr,
+    front_tls: SocketAddr,
+    worker: Worker,
+    state: Arc<BackState>,
+    _backends: Vec<BackendServer>,
+}
+
+impl Cell {
+    fn start() -> Result<Cell, String> {
+        let ip = lab::fresh_ip();
+        let front = lab::sa(ip, 8080);
+        let front_tls = lab::sa(ip, 8443);
+        let state = Arc::new(BackState::default());
+        let mut backends = Vec::new();
+        for port in [9000u16, 9001] {
+            let st = state.clone();
+            backends.push(
+                BackendServer::start(lab::sa(ip, port), IoProgram::fast(), move |s, _| backend::h1_backend(&st, s))
+                    .map_err(|e| format!("backend {port}: {e}"))?,
+            );
+        }
+        let st = state.clone();
+        backends.push(
+            BackendServer::start(lab::sa(ip, 9002), IoProgram::fast(), move |s, _| backend::h2c_backend(&st, s))
+                .map_err(|e| format!("backend 9002: {e}"))?,
+        );
+        let opts = WorkerOpts {
+            front_timeout: FRONT_TIMEOUT_S,
+            back_timeout: BACK_TIMEOUT_S,
+            connect_timeout: CONNECT_TIMEOUT_S,
+            request_timeout: REQUEST_TIMEOUT_S,
+            ..WorkerOpts::default()
+        };
+        let mut w = Worker::start(opts);
+        let timeouts = |b: &mut ListenerBuilder| {
+            b.with_front_timeout(Some(FRONT_TIMEOUT_S))
+                .with_back_timeout(Some(BACK_TIMEOUT_S))
+                .with_connect_timeout(Some(CONNECT_TIMEOUT_S))
+                .with_request_timeout(Some(REQUEST_TIMEOUT_S));
+        };
+        let mut ok = w.add_http_listener(front, timeouts)
+            && w.add_https_listener(front_tls, |b| {
+                timeouts(b);
+                b.strict_sni_binding = Some(true);
+            });
+        let cluster = |id: &str| Cluster { cluster_id: id.into(), ..Default::default() };
+        ok = ok
+            && w.add_cluster(cluster("ok"))
+            && w.add_cluster(cluster("f1"))
+            && w.add_cluster(Cluster { http2: Some(true), ..cluster("f2") })
+            && w.add_cluster(cluster("nobackend"))
+            && w.add_cluster(cluster("refused"))
+            && w.add_cluster(Cluster { max_connections_per_ip: Some(1), ..cluster("lim") });
+        for addr in [front, front_tls] {
+            let tls_side = addr == front_tls;
+            for (host, cl) in [
+                ("ok.test", Some("ok")),
+                ("okb.test", Some("ok")),
+                ("f1.test", Some("f1")),
+                ("f2.test", Some("f2")),
+                ("nobackend.test", Some("nobackend")),
+                ("refused.test", Some("refused")),
+                ("lim.test", Some("lim")),
+                ("deny.test", None),
+            ] {
+                let mut f = Worker::http_frontend(cl.unwrap_or(""), addr, host, "/");
+                if cl.is_none() {
+                    f.cluster_id = None;
+                }
+                ok = ok && if tls_side { w.add_https_frontend(f) } else { w.add_http_frontend(f) };
+            }
+        }
+        ok = ok
+            && w.add_backend("ok", "ok-0", lab::sa(ip, 9000))
+            && w.add_backend("lim", "lim-0", lab::sa(ip, 9000))
+            && w.add_backend("f1", "f1-0", lab::sa(ip, 9001))
+            && w.add_backend("f2", "f2-0", lab::sa(ip, 9002))
+            && w.add_backend("refused", "refused-0", lab::sa(ip, 9009));
+        let cert = std::fs::read_to_string("/repo/lib/assets/certificate.pem").unwrap_or_default();
+        let key = std::fs::read_to_string("/repo/lib/assets/key.pem").unwrap_or_default();
+        ok = ok && w.add_certificate(front_tls, &cert, vec![], &key, CERT_NAMES.iter().map(|s| s.to_string()).collect());
+        if !ok {
+            let _ = w.stop();
+            return Err("sozu refused part of the cell configuration".into());
+        }
+        Ok(Cell { ip, front, front_tls, worker: w, state, _backends: backends })
+    }
+}
+
+// ---- running one scenario -----------------------------------------------------------------------
+
+struct Ran {
+    outcomes: Vec<Outcome>,
+    ledger: Vec<String>,
+    trace: Vec<String>,
+    /// harness-side failure (connect / handshake): nothing can be judged
+    harness_error: Option<String>,
+}
+
+fn tls_connect(cell: &Cell, src: Option<IpAddr>, sni: &str, alpn: &str) -> Result<tls::TlsClient, String> {
+    let tcp = peers::connect(cell.front_tls, src, &IoProgram::fast(), Duration::from_secs(3)).map_err(|e| format!("connect: {e}"))?;
+    let (t, info) = tls::TlsClient::handshake(tcp, sni, tls::client_config(&[alpn]), Duration::from_secs(4)).map_err(|e| format!("tls: {e}"))?;
+    if info.alpn.as_deref() != Some(alpn.as_bytes()) {
+        return Err(format!("ALPN {alpn} not selected: {:?}", info.alpn));
+    }
+    Ok(t)
+}
+
+fn sni_for(sc: &Scenario) -> &'static str {
+    if sc.reqs.len() == 1 && sc.reqs[0].fault != Fault::WrongCert { sc.reqs[0].host } else { "ok.test" }
+}
+
+fn run_on_front(cell: &Cell, front: Front, src: Option<IpAddr>, sni: &str, reqs: &[ReqSpec]) -> Ran {
+    let mut ran = Ran { outcomes: Vec::new(), ledger: Vec::new(), trace: Vec::new(), harness_error: None };
+    fn seq<T: h2::Transport>(mut c: H1Client<T>, reqs: &[ReqSpec]) -> Vec<Outcome> {
+        let mut out = Vec::new();
+        for (i, r) in reqs.iter().enumerate() {
+            out.push(c.exchange(r, i + 1 == reqs.len()));
+        }
+        out
+    }
+    match front {
+        Front::H1Tcp => match peers::connect(cell.front, src, &IoProgram::fast(), Duration::from_secs(3)) {
+            Ok(tcp) => ran.outcomes = seq(H1Client::new(tcp), reqs),
+            Err(e) => ran.harness_error = Some(format!("connect: {e}")),
+        },
+        Front::H1Tls => match tls_connect(cell, src, sni, "http/1.1") {
+            Ok(t) => ran.outcomes = seq(H1Client::new(t), reqs),
+            Err(e) => ran.harness_error = Some(e),
+        },
+        Front::H2Tls => match tls_connect(cell, src, sni, "h2") {
+            Ok(t) => {
+                let mut c = H2Conn::new(t, Role::Client);
+                let (o, l, t) = run_h2(&mut c, reqs);
+                ran.outcomes = o;
+                ran.ledger = l;
+                ran.trace = t;
+                let _ = c.send_goaway(0, h2::ERR_NO_ERROR, b"");
+            }
+            Err(e) => ran.harness_error = Some(e),
+        },
+    }
+    ran
+}
+
+fn run_scenario(cell: &Cell, sc: &Scenario) -> Ran {
+    let per_ip = sc.reqs.iter().any(|r| r.fault == Fault::PerIp);
+    if !per_ip {
+        return run_on_front(cell, sc.front, None, sni_for(sc), &sc.reqs);
+    }
+    // per-(cluster, source IP) limit of 1: a first connection from a private source address holds
+    // the slot while the scenario's connection, from the same address, asks for the same cluster
+    let src = IpAddr::V4(lab::fresh_ip());
+    let mut holder_spec = ReqSpec::new("lim.test", Back::H1, Fault::None);
+    holder_spec.id = sc.reqs[sc.faulty].id | (1 << 41);
+    let holder_ok;
+    // the holder stays connected (keep-alive) until the scenario is over
+    let _holder: Box<dyn std::any::Any> = match sc.front {
+        Front::H1Tcp => match peers::connect(cell.front, Some(src), &IoProgram::fast(), Duration::from_secs(3)) {
+            Ok(tcp) => {
+                let mut c = H1Client::new(tcp);
+                let o = c.exchange(&holder_spec, false);
+                holder_ok = o.status == Some(200) && !c.closed;
+                Box::new(c)
+            }
+            Err(e) => return Ran { outcomes: vec![], ledger: vec![], trace: vec![], harness_error: Some(format!("holder connect: {e}")) },
+        },
+        _ => match tls_connect(cell, Some(src), "lim.test", "http/1.1") {
+            Ok(t) => {
+                let mut c = H1Client::new(t);
+                let o = c.exchange(&holder_spec, false);
+                holder_ok = o.status == Some(200) && !c.closed;
+                Box::new(c)
+            }
+            Err(e) => return Ran { outcomes: vec![], ledger: vec![], trace: vec![], harness_error: Some(format!("holder: {e}")) },
+        },
+    };
+    if !holder_ok {
+        return Ran { outcomes: vec![], ledger: vec![], trace: vec![], harness_error: Some("the slot-holding connection did not get its 200".into()) };
+    }
+    run_on_front(cell, sc.front, Some(src), sni_for(sc), &sc.reqs)
+}
+
+// ---- oracle -------------------------------------------------------------------------------------
+
+enum Verdict {
+    Held(&'static str),
+    /// the statement leaves this open: counted, not judged
+    Exempt(&'static str),
+    Violation(String, String),
+    /// bounded-time miss: re-run alone before it counts
+    Late(String),
+    Inconclusive(String),
+}
+
+fn family_closed(st: u16, att: &Att) -> Option<Verdict> {
+    // statement: "502 backend closed early"; Appendix A: a transparent retry that yields the
+    // backend's real answer is fine (handled by the caller), 503 only when every attempt was closed
+    match st {
+        502 => Some(Verdict::Held("502")),
+        503 if att.seen >= 1 && att.served == 0 && att.faulted == att.seen => Some(Verdict::Held("503_every_attempt_closed")),
+        503 if att.seen == 0 => Some(Verdict::Exempt("503_backend_never_contacted")),
+        _ => None,
+    }
+}
+
+fn judge(sc: &Scenario, i: usize, o: &Outcome, att: &Att) -> Verdict {
+    let r = &sc.reqs[i];
+    let cause = r.cause();
+    let pair = sc.pair(r);
+    let sibling = r.is_healthy() && sc.reqs.len() > 1;
+    // a healthy request issued before the faulty one on an HTTP/1.1 connection cannot be a victim of it
+    let before_fault = sc.mux == Mux::KeepAlive && i < sc.faulty;
+    let wrong = |got: String| {
+        if sibling && before_fault {
+            Verdict::Violation(
+                format!("answers/healthy_request_failed/keepalive/{pair}/{got}"),
+                format!("a healthy request on a reused HTTP/1.1 connection (position {i}, before any fault was injected) did not get its intact 200: {got}"),
+            )
+        } else if sibling {
+            Verdict::Violation(
+                format!("answers/sibling_harmed/{}/{}/{}", if sc.mux == Mux::KeepAlive { "keepalive" } else { "h2streams" }, pair, got),
+                format!("a healthy request sharing the connection with a faulty one ({}) did not get its intact 200: {got}", sc.reqs[sc.faulty].cause()),
+            )
+        } else {
+            Verdict::Violation(format!("answers/wrong_status/{cause}/{got}"), format!("cause {cause} on {pair} was answered with {got}"))
+        }
+    };
+    // class of an abort, for signatures
+    let how = match &o.end {
+        End::AbortClose | End::AbortReset | End::GoAway(0) => "connection_shut_down".to_owned(),
+        End::GoAway(c) => format!("goaway_error_{c}"),
+        End::RstStream(7) => "stream_refused".to_owned(),
+        End::RstStream(c) => format!("rst_stream_{c}"),
+        e => e.name(),
+    };
+    match &o.end {
+        End::NotSent(why) => return Verdict::Inconclusive(format!("request not sent: {why}")),
+        End::Timeout => return Verdict::Late(format!("no answer within {} ms", r.bound_ms())),
+        End::Malformed(e) => {
+            if o.status == Some(200) && crate::peers::h1::memfind(&o.raw, b"HTTP/1.1 ").is_some() {
+                return Verdict::Violation(
+                    format!("answers/second_answer_spliced_into_body/{}/{}", pair, r.fr.name()),
+                    format!(
+                        "after relaying the head and {} body bytes of the backend's 200, sozu wrote a second, proxy-generated answer into the unfinished body ({} ms after the request): {:?} (decoder: {e})",
+                        o.body.len(),
+                        o.t_ms,
+                        String::from_utf8_lossy(&o.raw[..o.raw.len().min(60)])
+                    ),
+                );
+            }
+            return Verdict::Violation(format!("answers/malformed_answer/{pair}"), format!("sozu's answer to cause {cause} does not parse as HTTP: {e}"));
+        }
+        _ => {}
+    }
+    if o.end == End::Complete && o.status == Some(200) {
+        // sozu's own (second) answer written where the rest of the backend's body was expected
+        let full = r.expected_body();
+        let common = o.body.iter().zip(full.iter()).take_while(|(a, b)| a == b).count();
+        // (a keystream byte may happen to equal the 'H' of "HTTP": look for the longest tail)
+        let splice = (0..=common.min(o.body.len().saturating_sub(1)))
+            .rev()
+            .find(|p| sc.front.is_h1() && *p < full.len() && o.body.len() > *p && o.body != full && b"HTTP/1.1 ".starts_with(&o.body[*p..o.body.len().min(*p + 9)]));
+        if let Some(p) = splice {
+            return Verdict::Violation(
+                format!("answers/second_answer_spliced_into_body/{}/{}", pair, r.fr.name()),
+                format!(
+                    "the backend failed after {p} of {} declared body bytes; sozu kept the client connection open and later wrote a second, proxy-generated answer into it: the client's strict decoder completes the declared length with the first bytes of that answer ({:?}) and finds the rest behind the message ({:?}); answer came {} ms after the request",
+                    full.len(),
+                    String::from_utf8_lossy(&o.body[p..]),
+                    o.extra,
+                    o.t_ms
+                ),
+            );
+        }
+    }
+    if let Some(x) = &o.extra {
+        return Verdict::Violation(format!("answers/two_answers/{cause}/{pair}"), format!("more than one answer for one request: {x}"));
+    }
+    if o.t_ms > r.bound_ms() {
+        return Verdict::Late(format!("answer after {} ms, bound {} ms", o.t_ms, r.bound_ms()));
+    }
+    let backend_failure = matches!(
+        r.fault,
+        Fault::Close { .. } | Fault::Stall { .. } | Fault::Garbage { .. } | Fault::H2cRst { .. } | Fault::H2cGoaway { .. } | Fault::H2cClose { .. } | Fault::H2cStall { .. } | Fault::H2cNoAck
+    );
+    let unjudged_status = matches!(r.fault, Fault::Garbage { .. } | Fault::IdleClose { .. } | Fault::NextAfterIdle | Fault::H2cRst { .. } | Fault::H2cGoaway { .. } | Fault::H2cNoAck | Fault::ClientStall { part: 2 });
+    if o.end.is_abort() {
+        if sibling || r.is_healthy() {
+            return wrong(format!("aborted:{how}"));
+        }
+        if backend_failure && o.seen > 0 {
+            return Verdict::Held("explicit_abort_after_response_started");
+        }
+        if backend_failure && r.progress() != Progress::Nothing {
+            return Verdict::Exempt("abort_before_anything_was_relayed_backend_had_started");
+        }
+        if unjudged_status && o.seen > 0 {
+            return Verdict::Exempt("other_cause_aborted_after_start");
+        }
+        if matches!(r.fault, Fault::H2cRst { .. } | Fault::H2cGoaway { .. }) {
+            // a backend stream reset relayed as a stream reset: the statement does not name it
+            return Verdict::Exempt("other_cause_reset_relayed");
+        }
+        // on a multiplexed H2 connection the answer is usually lost because sozu shut the whole
+        // connection down: one signature for that, whatever the cause was (timeouts keep theirs)
+        let what = if sc.mux == Mux::H2Streams && how == "connection_shut_down" && r.governing_ms() == 0 {
+            "h2_connection_shut_down".to_owned()
+        } else {
+            cause.clone()
+        };
+        return Verdict::Violation(
+            format!("answers/no_answer/{what}/{pair}"),
+            format!("the request was dropped without any answer ({}) although no response had started", o.end.name()),
+        );
+    }
+    // a message the strict decoder sees as complete
+    let Some(st) = o.status else {
+        return Verdict::Violation(format!("answers/malformed_answer/{pair}"), "complete message without a status".into());
+    };
+    if st == 200 {
+        let full = r.expected_body();
+        if o.body != full {
+            if r.back == Back::Proxy && r.fault != Fault::None {
+                return wrong("got200".into());
+            }
+            if o.body.len() < full.len() && full.starts_with(&o.body) && r.fr != Fr::UntilClose {
+                return Verdict::Violation(
+                    format!("answers/truncated_presented_complete/{}/{}", pair, if r.back == Back::H2c { "h2-end-stream-never-sent" } else { r.fr.name() }),
+                    format!(
+                        "the backend declared {} body bytes and failed after {}; the client's strict decoder saw a complete message of {} bytes (declared length relayed: {:?})",
+                        full.len(),
+                        o.body.len(),
+                        o.body.len(),
+                        o.declared_len
+                    ),
+                );
+            }
+            if r.fr == Fr::UntilClose && full.starts_with(&o.body) {
+                return Verdict::Exempt("close_delimited_ends_at_close");
+            }
+            return Verdict::Violation(format!("answers/corrupted_body/{pair}"), format!("200 whose body ({} bytes) is not the backend's ({} bytes)", o.body.len(), full.len()));
+        }
+        if att.served == 0 && backend_failure && r.progress() == Progress::Started && r.fr != Fr::UntilClose {
+            return Verdict::Violation(
+                format!("answers/truncated_presented_complete/{}/{}", pair, if r.back == Back::H2c { "h2-end-stream-never-sent" } else { r.fr.name() }),
+                format!("the backend failed before the end of its message (all {} body bytes sent, terminator / END_STREAM not); the client's strict decoder saw a complete message", full.len()),
+            );
+        }
+        // intact 200: the backend must really have served it
+        if r.is_healthy() || att.served >= 1 {
+            if !r.is_healthy() && !matches!(r.fault, Fault::IdleClose { .. } | Fault::NextAfterIdle | Fault::H2cNoAck | Fault::PerIp) {
+                return Verdict::Held("transparent_retry_200");
+            }
+            if r.fault == Fault::PerIp {
+                return wrong("got200".into());
+            }
+            return Verdict::Held("200");
+        }
+        return wrong("got200".into());
+    }
+    let got = format!("got{st}");
+    if r.is_healthy() {
+        if r.back == Back::H2c && att.never_ended > 0 && att.served == 0 {
+            return Verdict::Violation(
+                format!("answers/request_never_completed_towards_backend/{pair}"),
+                format!("a healthy body-less request was forwarded to the h2c backend as HEADERS without END_STREAM and never ended; a backend that waits for the end of the request cannot answer, the client got {st}"),
+            );
+        }
+        return wrong(got);
+    }
+    let expect_one = |codes: &[u16]| if codes.contains(&st) { Verdict::Held("status_matches_cause") } else { wrong(got.clone()) };
+    match &r.fault {
+        Fault::NoRoute => expect_one(&[404]),
+        Fault::Deny => expect_one(&[401]),
+        Fault::WrongCert => expect_one(&[421]),
+        Fault::PerIp => expect_one(&[429]),
+        Fault::NoBackend | Fault::Refused => expect_one(&[503]),
+        Fault::Close { .. } | Fault::H2cClose { .. } => family_closed(st, att).unwrap_or_else(|| wrong(got.clone())),
+        Fault::Stall { .. } | Fault::H2cStall { .. } => expect_one(&[504]),
+        Fault::ClientStall { part } if *part < 2 => expect_one(&[408]),
+        _ => Verdict::Exempt("other_cause_status_not_judged"),
+    }
+}
+
+fn witness(ctx: &Ctx, cell_idx: u64, sc: &Scenario, i: usize, o: &Outcome, att: &Att, ran: &Ran, rerun: bool) -> Value {
+    json!({
+        "case": cell_idx, "seed": ctx.seed, "tier": ctx.tier.name(),
+        "scenario": sc.describe(), "request_index": i, "request": sc.reqs[i].describe(),
+        "expected": "one answer whose status matches the cause, or (once a response has started) an explicit abort; never a complete message shorter than declared",
+        "observed": o.describe(),
+        "all_outcomes": ran.outcomes.iter().map(|x| format!("{:?}/{}/{}B/{}ms", x.status, x.end.name(), x.body.len(), x.t_ms)).collect::<Vec<_>>(),
+        "backend_record": {"attempts_seen": att.seen, "attempts_faulted": att.faulted, "attempts_served": att.served, "h2c_requests_never_ended_by_sozu": att.never_ended},
+        "h2_ledger": ran.ledger, "h2_frame_trace": ran.trace, "reproduced_alone": rerun,
+        "timeouts_s": {"front": FRONT_TIMEOUT_S, "back": BACK_TIMEOUT_S, "connect": CONNECT_TIMEOUT_S, "request": REQUEST_TIMEOUT_S},
+    })
+}
+
+/// ids of a re-run must be new (the backends key their attempt records on them)
+fn remap(sc: &Scenario) -> Scenario {
+    let mut s = sc.clone();
+    for r in &mut s.reqs {
+        r.id |= 1 << 40;
+    }
+    s
+}
+
+fn run_and_judge(ctx: &Ctx, cell: &Cell, cell_idx: u64, sc: &Scenario, rep: &mut Report) {
+    let guard_shared = ALONE.read().unwrap_or_else(|e| e.into_inner());
+    let ran = run_scenario(cell, sc);
+    drop(guard_shared);
+    let mut shape = format!("{}|{}|{}", sc.front.name(), sc.mux_name(), sc.faulty);
+    for r in &sc.reqs {
+        shape += &format!("|{}:{:?}:{}:{}:{}:{}:{}", r.back.name(), r.fault, r.fr.code(), r.upload > 0, r.upload_split, r.early, r.times);
+    }
+    rep.case_bytes(shape.as_bytes(), sc.reqs[sc.faulty].fault != Fault::None);
+    if let Some(e) = &ran.harness_error {
+        rep.inconclusive(&format!("harness: {}", e.split(':').next().unwrap_or("error")));
+        return;
+    }
+    if ctx.opt("dump").is_some() {
+        eprintln!("{}", serde_json::to_string(&json!({"scenario": sc.describe(), "outcomes": ran.outcomes.iter().map(|o| o.describe()).collect::<Vec<_>>(), "trace": ran.trace, "ledger": ran.ledger})).unwrap_or_default());
+    }
+    let mux = sc.mux_name();
+    let mut late: Vec<(usize, String)> = Vec::new();
+    let mut closed_after_fault = false;
+    let mut conn_dead = false;
+    for (i, o) in ran.outcomes.iter().enumerate() {
+        let r = &sc.reqs[i];
+        if r.back == Back::H2c && r.is_healthy() && o.status != Some(200) {
+            // the h2c backend files its "request never ended" note when sozu drops the connection
+            std::thread::sleep(Duration::from_millis(300));
+        }
+        let att = cell.state.record(r.id);
+        let cause = r.cause();
+        let pair = sc.pair(r);
+        // HTTP/1.1 requests behind the faulty one are only judged when the connection survived
+        if sc.mux == Mux::KeepAlive && i > sc.faulty && (closed_after_fault || matches!(o.end, End::NotSent(_)) || (o.end.is_abort() && o.seen == 0)) {
+            closed_after_fault = true;
+            rep.obs("keepalive_requests_behind_the_fault_not_sent_connection_closed", 1);
+            continue;
+        }
+        if sc.mux == Mux::KeepAlive && matches!(o.end, End::NotSent(_)) && conn_dead {
+            // an earlier answer on this HTTP/1.1 connection ended it (judged on its own)
+            rep.obs("keepalive_requests_not_sent_connection_ended_by_an_earlier_answer", 1);
+            continue;
+        }
+        if o.conn_close || o.end.is_abort() || matches!(o.end, End::Timeout | End::Malformed(_)) || o.extra.is_some() {
+            conn_dead = true;
+        }
+        let v = judge(sc, i, o, &att);
+        if i == sc.faulty && !r.is_healthy() {
+            rep.obs(&format!("m/{cause}/{pair}/{mux}"), 1);
+            rep.obs(&format!("cause/{cause}"), 1);
+            rep.obs(&format!("pair/{pair}"), 1);
+            rep.obs(&format!("mux/{}", match sc.mux { Mux::Single => "single", Mux::KeepAlive => "keepalive", Mux::H2Streams => "h2streams" }), 1);
+            let seen = match (&o.end, o.status) {
+                (End::Complete, Some(s)) => s.to_string(),
+                (e, _) => e.name(),
+            };
+            rep.obs(&format!("status/{cause}/{seen}"), 1);
+            if !matches!(o.end, End::Timeout | End::NotSent(_)) {
+                rep.obs_max(&format!("tta_ms/{cause}"), o.t_ms);
+            }
+            if r.early || r.upload_split {
+                rep.obs("moment/fault_while_request_body_in_flight", 1);
+            } else if r.upload > 0 {
+                rep.obs("moment/fault_after_complete_upload", 1);
+            } else {
+                rep.obs("moment/fault_after_complete_request", 1);
+            }
+            if att.seen >= 2 {
+                rep.obs("backend_saw_a_retry", 1);
+            }
+            if sc.tag == "sweep" {
+                if let Fault::Close { .. } = r.fault {
+                    rep.obs(&format!("sweep/{}/{}", r.fr.name(), sc.front.name()), 1);
+                }
+            }
+        }
+        match v {
+            Verdict::Held(how) => {
+                if r.is_healthy() && sc.reqs.len() > 1 {
+                    rep.obs("siblings_verified", 1);
+                    if sc.mux == Mux::H2Streams {
+                        rep.obs("siblings_verified/h2_streams", 1);
+                        if r.back == Back::H2c && sc.reqs[sc.faulty].back == Back::H2c {
+                            rep.obs("siblings_verified/sharing_h2c_backend_cluster", 1);
+                        }
+                    } else {
+                        rep.obs(if i < sc.faulty { "siblings_verified/keepalive_before_fault" } else { "siblings_verified/keepalive_after_fault" }, 1);
+                    }
+                    rep.obs_max("tta_ms/sibling", o.t_ms);
+                } else if r.is_healthy() {
+                    rep.obs("healthy_single_verified", 1);
+                } else {
+                    rep.obs(&format!("held/{how}"), 1);
+                }
+            }
+            Verdict::Exempt(why) => rep.obs(&format!("exempt/{why}"), 1),
+            Verdict::Inconclusive(why) => rep.inconclusive(&why),
+            Verdict::Late(why) => late.push((i, why)),
+            Verdict::Violation(sig, what) => rep.violation(&sig, &what, witness(ctx, cell_idx, sc, i, o, &att, &ran, false)),
+        }
+        if i == sc.faulty && (o.conn_close || o.end.is_abort()) {
+            // whatever follows on an HTTP/1.1 connection is at sozu's discretion
+        }
+    }
+    if !ran.ledger.is_empty() {
+        let first = &ran.ledger[0];
+        let kind = first.split(':').next().unwrap_or("ledger");
+        rep.violation(
+            &format!("answers/h2_frame_sequence/{kind}"),
+            &format!("sozu's HTTP/2 frames towards the client break the stream state machine: {first}"),
+            json!({"case": cell_idx, "seed": ctx.seed, "scenario": sc.describe(), "ledger": ran.ledger,
+                   "all_outcomes": ran.outcomes.iter().map(|x| x.describe()).collect::<Vec<_>>()}),
+        );
+    }
+    if late.is_empty() {
+        return;
+    }
+    // bounded time: re-run the scenario once, alone, before counting the miss (a run that is late
+    // everywhere would otherwise serialise itself: at most 12 re-runs)
+    if RERUNS.fetch_add(1, Ordering::SeqCst) >= 12 {
+        for _ in &late {
+            rep.inconclusive("late answer, re-run budget spent");
+        }
+        return;
+    }
+    rep.obs("late_answers_rerun_alone", 1);
+    let again = remap(sc);
+    let ran2 = {
+        let _g = ALONE.write().unwrap_or_else(|e| e.into_inner());
+        std::thread::sleep(Duration::from_millis(100));
+        run_scenario(cell, &again)
+    };
+    for (i, why) in late {
+        let r = &again.reqs[i];
+        let att = cell.state.record(r.id);
+        let reproduced = ran2.harness_error.is_none()
+            && ran2.outcomes.get(i).is_some_and(|o| matches!(judge(&again, i, o, &att), Verdict::Late(_)));
+        if reproduced {
+            let o = &ran2.outcomes[i];
+            let sig = if r.is_healthy() && sc.reqs.len() > 1 {
+                format!("answers/sibling_harmed/{}/{}/stalled", if sc.mux == Mux::KeepAlive { "keepalive" } else { "h2streams" }, again.pair(r))
+            } else {
+                format!("answers/unanswered/{}/{}", r.cause(), again.pair(r))
+            };
+            rep.violation(
+                &sig,
+                &format!("request still pending {} ms after it was sent (bound: configured timeouts {} ms + {} ms slack), twice, the second time alone: {why}", o.t_ms, r.bound_ms() - SLACK_MS, SLACK_MS),
+                witness(ctx, cell_idx, &again, i, o, &att, &ran2, true),
+            );
+        } else {
+            rep.inconclusive("late answer not reproduced alone");
+        }
+    }
+}
+
+// ---- catalogue ----------------------------------------------------------------------------------
+
+struct Gen {
+    rng: Rng,
+    out: Vec<Scenario>,
+    round: u64,
+}
+
+const SIB_LENS: [usize; 7] = [0, 1, 8, 1000, 5000, 20_000, 40_000];
+
+impl Gen {
+    fn push(&mut self, front: Front, mux: Mux, reqs: Vec<ReqSpec>, faulty: usize, tag: &'static str) {
+        let idx = self.out.len();
+        self.out.push(Scenario { idx, front, mux, reqs, faulty, tag });
+    }
+    fn single(&mut self, front: Front, r: ReqSpec, tag: &'static str) {
+        self.push(front, Mux::Single, vec![r], 0, tag);
+    }
+    /// a healthy request: HTTP/1.1 backend (ok.test / okb.test / f1.test) or h2c (f2.test)
+    fn sibling(&mut self, host: &'static str) -> ReqSpec {
+        let back = if host == "f2.test" { Back::H2c } else { Back::H1 };
+        let mut r = ReqSpec::new(host, back, Fault::None);
+        r.len = *self.rng.pick(&SIB_LENS);
+        r.fr = if back == Back::H1 && self.rng.chance(1, 3) { Fr::Chunked } else { Fr::Cl };
+        r.chunk = *self.rng.pick(&[1usize, 7, 1000, 4096]);
+        if self.rng.chance(1, 4) {
+            r.upload = *self.rng.pick(&[1usize, 100, 3000]);
+        }
+        r
+    }
+    fn sibling_host(&mut self, allow: &[&'static str]) -> &'static str {
+        allow[self.rng.usize_below(allow.len())]
+    }
+    /// put `faulty` at position `pos` among `n` requests, the others healthy
+    fn mixed(&mut self, front: Front, mux: Mux, n: usize, pos: usize, faulty: ReqSpec, hosts: &[&'static str], tag: &'static str) {
+        let mut reqs = Vec::new();
+        for i in 0..n {
+            if i == pos {
+                reqs.push(faulty.clone());
+            } else {
+                let h = self.sibling_host(hosts);
+                reqs.push(self.sibling(h));
+            }
+        }
+        self.push(front, mux, reqs, pos, tag);
+    }
+    fn short_len(&mut self) -> (usize, usize) {
+        if self.round == 0 { (8, 4) } else { (self.rng.urange(1, 24), self.rng.urange(1, 9)) }
+    }
+}
+
+fn h1f(fault: Fault) -> ReqSpec {
+    ReqSpec::new("f1.test", Back::H1, fault)
+}
+fn h2f(fault: Fault) -> ReqSpec {
+    ReqSpec::new("f2.test", Back::H2c, fault)
+}
+fn routing(f: &Fault) -> ReqSpec {
+    let host = match f {
+        Fault::NoRoute => "noroute.test",
+        Fault::Deny => "deny.test",
+        Fault::WrongCert => "ok.test",
+        Fault::PerIp => "lim.test",
+        Fault::NoBackend => "nobackend.test",
+        _ => "refused.test",
+    };
+    ReqSpec::new(host, Back::Proxy, f.clone())
+}
+
+fn one_round(g: &mut Gen, quick: bool) {
+    let routing_faults = [Fault::NoRoute, Fault::Deny, Fault::WrongCert, Fault::PerIp, Fault::NoBackend, Fault::Refused];
+    let h1_sib: [&'static str; 3] = ["ok.test", "okb.test", "f1.test"];
+    let any_sib: [&'static str; 4] = ["ok.test", "okb.test", "f1.test", "f2.test"];
+
+    // A. routing outcomes x fronts x multiplexing
+    for f in &routing_faults {
+        for front in Front::ALL {
+            if *f == Fault::WrongCert && !front.is_tls() {
+                continue;
+            }
+            let mut r = routing(f);
+            g.single(front, r.clone(), "routing");
+            r.upload = 200;
+            g.single(front, r.clone(), "routing");
+            r.upload = 0;
+            if front.is_h1() {
+                for _ in 0..2 {
+                    let n = g.rng.urange(2, 6);
+                    let pos = g.rng.usize_below(n);
+                    g.mixed(front, Mux::KeepAlive, n, pos, r.clone(), &h1_sib, "routing");
+                }
+            } else {
+                for n in [2usize, 4, 8] {
+                    let pos = g.rng.usize_below(n);
+                    g.mixed(front, Mux::H2Streams, n, pos, r.clone(), &any_sib, "routing");
+                }
+            }
+        }
+    }
+
+    // B. exhaustive close offsets of a short response, all framings, all fronts
+    for fr in [Fr::Cl, Fr::Chunked, Fr::ClClose, Fr::ChunkedClose] {
+        let (len, chunk) = g.short_len();
+        let (resp, _) = h1_response(1, len, fr, chunk);
+        for front in Front::ALL {
+            for k in 0..resp.len() {
+                let mut r = h1f(Fault::Close { k, rst: false });
+                r.len = len;
+                r.fr = fr;
+                r.chunk = chunk;
+                g.single(front, r.clone(), "sweep");
+                if k == 0 {
+                    r.times = 1;
+                    g.single(front, r.clone(), "sweep");
+                    r.times = 2;
+                    r.upload = 64; // a request with a body that was already handed to the backend
+                    g.single(front, r, "sweep");
+                }
+            }
+        }
+    }
+
+    // C. RST at boundary offsets; D. boundary offsets of a long response
+    for fr in [Fr::Cl, Fr::Chunked] {
+        let (resp, head) = h1_response(1, 8, fr, 4);
+        for front in Front::ALL {
+            for k in [0, 1, head - 1, head, head + 1, resp.len() - 1] {
+                let mut r = h1f(Fault::Close { k, rst: true });
+                r.fr = fr;
+                g.single(front, r, "rst");
+            }
+        }
+    }
+    for fr in [Fr::Cl, Fr::Chunked, Fr::ClClose] {
+        let len = 40_000;
+        let (resp, head) = h1_response(1, len, fr, 4096);
+        let mut ks = vec![head, head + 1, 16_383, 16_384, 16_393, 32_768, resp.len() - 1];
+        if !quick || g.round > 0 {
+            ks.push(g.rng.urange(head + 2, resp.len() - 2));
+        }
+        for front in Front::ALL {
+            for &k in &ks {
+                let mut r = h1f(Fault::Close { k, rst: g.rng.chance(1, 5) });
+                r.len = len;
+                r.fr = fr;
+                r.chunk = 4096;
+                g.single(front, r, "long");
+            }
+        }
+    }
+
+    // E. silent backend at each stage; F. garbage
+    for front in Front::ALL {
+        for (fr, k) in [(Fr::Cl, 0usize), (Fr::Cl, 10), (Fr::Cl, 38), (Fr::Cl, 42), (Fr::Chunked, 52)] {
+            let mut r = h1f(Fault::Stall { k });
+            r.fr = fr;
+            g.single(front, r, "stall");
+        }
+        for v in 0..4u8 {
+            g.single(front, h1f(Fault::Garbage { v }), "garbage");
+        }
+    }
+
+    // G. the backend closes its idle keep-alive connection around the next request
+    for front in Front::ALL {
+        for delay in [0u32, 1, 3] {
+            for gap in [0u32, 2, 5] {
+                let a = h1f(Fault::IdleClose { delay_ms: delay });
+                let mut b = h1f(Fault::NextAfterIdle);
+                b.gap_ms = gap;
+                b.len = 300;
+                let mux = if front.is_h1() { Mux::KeepAlive } else { Mux::H2Streams };
+                g.push(front, mux, vec![a, b], 1, "idle_race");
+            }
+        }
+    }
+
+    // H. the HTTP/1.1 client never finishes
+    for front in Front::H1 {
+        for part in 0..3u8 {
+            let mut r = ReqSpec::new("ok.test", Back::H1, Fault::ClientStall { part });
+            if part == 2 {
+                r.upload = 100;
+            }
+            g.single(front, r.clone(), "client_stall");
+            if part < 2 {
+                // as the second request of a keep-alive connection
+                let s = g.sibling("ok.test");
+                g.push(front, Mux::KeepAlive, vec![s, r], 1, "client_stall");
+            }
+        }
+    }
+
+    // I. HTTP/1.1 backend faults under connection reuse and under H2 multiplexing
+    let resp_head = h1_response(1, 8, Fr::Cl, 4).1;
+    let mux_faults = [
+        Fault::Close { k: 0, rst: false },
+        Fault::Close { k: 12, rst: false },
+        Fault::Close { k: resp_head + 3, rst: false },
+        Fault::Close { k: 0, rst: true },
+        Fault::Close { k: resp_head + 3, rst: true },
+        Fault::Garbage { v: 1 },
+        Fault::Stall { k: 0 },
+        Fault::Stall { k: resp_head + 3 },
+    ];
+    let mut fi = g.rng.usize_below(mux_faults.len());
+    for front in Front::H1 {
+        for n in 2..=6usize {
+            for pos in 0..n {
+                let mut r = h1f(mux_faults[fi % mux_faults.len()].clone());
+                fi += 1;
+                r.delay_ms = g.rng.range(0, 3) as u32;
+                g.mixed(front, Mux::KeepAlive, n, pos, r, &h1_sib, "keepalive");
+            }
+        }
+    }
+    for n in 2..=8usize {
+        for f in &mux_faults {
+            let mut r = h1f(f.clone());
+            r.delay_ms = g.rng.range(0, 12) as u32;
+            let pos = g.rng.usize_below(n);
+            g.mixed(Front::H2Tls, Mux::H2Streams, n, pos, r, &any_sib, "h2streams");
+        }
+    }
+
+    // J. h2c backend
+    for front in Front::ALL {
+        let mut r = h2f(Fault::None);
+        r.len = 5000;
+        g.single(front, r.clone(), "h2c");
+        // chunk = 0: the h2c backend waits for the end of the request before it answers
+        r.chunk = 0;
+        g.single(front, r.clone(), "h2c");
+        r.chunk = 4;
+        r.upload = 3000;
+        g.single(front, r, "h2c");
+        let mut faults = Vec::new();
+        for stage in 0..3u8 {
+            for code in [h2::ERR_CANCEL, h2::ERR_REFUSED_STREAM, h2::ERR_INTERNAL_ERROR] {
+                faults.push(Fault::H2cRst { code, stage });
+            }
+            for code in [h2::ERR_NO_ERROR, h2::ERR_INTERNAL_ERROR] {
+                faults.push(Fault::H2cGoaway { code, stage });
+            }
+            faults.push(Fault::H2cClose { stage });
+            faults.push(Fault::H2cStall { stage });
+        }
+        faults.push(Fault::H2cNoAck);
+        for f in faults {
+            let mut r = h2f(f.clone());
+            r.len = 2000;
+            g.single(front, r.clone(), "h2c");
+            if r.progress() == Progress::Nothing && !matches!(f, Fault::H2cStall { .. } | Fault::H2cNoAck) {
+                r.times = 1;
+                g.single(front, r, "h2c");
+            }
+        }
+    }
+    // stream-level h2c faults with siblings on the same backend connection; connection-level ones
+    // with siblings that only share the frontend connection
+    for n in [2usize, 4, 8] {
+        for f in [
+            Fault::H2cRst { code: h2::ERR_CANCEL, stage: 0 },
+            Fault::H2cRst { code: h2::ERR_INTERNAL_ERROR, stage: 1 },
+            Fault::H2cRst { code: h2::ERR_CANCEL, stage: 2 },
+            Fault::H2cStall { stage: 0 },
+            Fault::H2cStall { stage: 2 },
+        ] {
+            let mut r = h2f(f);
+            r.len = 2000;
+            r.delay_ms = g.rng.range(0, 8) as u32;
+            let pos = g.rng.usize_below(n);
+            g.mixed(Front::H2Tls, Mux::H2Streams, n, pos, r, &["f2.test"], "h2c_shared");
+        }
+        for f in [
+            Fault::H2cGoaway { code: h2::ERR_NO_ERROR, stage: 0 },
+            Fault::H2cGoaway { code: h2::ERR_INTERNAL_ERROR, stage: 2 },
+            Fault::H2cClose { stage: 0 },
+            Fault::H2cClose { stage: 2 },
+            Fault::H2cNoAck,
+        ] {
+            let mut r = h2f(f);
+            r.len = 2000;
+            r.delay_ms = g.rng.range(0, 8) as u32;
+            let pos = g.rng.usize_below(n);
+            g.mixed(Front::H2Tls, Mux::H2Streams, n, pos, r, &h1_sib, "h2c_conn");
+        }
+    }
+    for front in Front::H1 {
+        for f in [Fault::H2cClose { stage: 0 }, Fault::H2cRst { code: h2::ERR_CANCEL, stage: 1 }, Fault::H2cGoaway { code: h2::ERR_NO_ERROR, stage: 0 }, Fault::H2cClose { stage: 2 }] {
+            let n = g.rng.urange(2, 6);
+            let pos = g.rng.usize_below(n);
+            let mut r = h2f(f);
+            r.len = 2000;
+            g.mixed(front, Mux::KeepAlive, n, pos, r, &any_sib, "keepalive");
+        }
+    }
+
+    // K. the fault hits while the request body is still being uploaded
+    for front in Front::ALL {
+        for f in [
+            Fault::Close { k: 0, rst: false },
+            Fault::Close { k: 0, rst: true },
+            Fault::Close { k: resp_head + 3, rst: false },
+            Fault::Stall { k: 0 },
+            Fault::H2cRst { code: h2::ERR_CANCEL, stage: 0 },
+            Fault::H2cClose { stage: 0 },
+            Fault::H2cClose { stage: 1 },
+        ] {
+            let h2c = matches!(f, Fault::H2cRst { .. } | Fault::H2cClose { .. });
+            let mut r = if h2c { h2f(f) } else { h1f(f) };
+            r.upload = 3000;
+            r.upload_split = true;
+            r.early = true;
+            g.single(front, r, "upload");
+        }
+        // healthy upload with a pause, as a control
+        let mut r = g.sibling("ok.test");
+        r.upload = 3000;
+        r.upload_split = true;
+        g.single(front, r, "upload");
+    }
+}
+
+fn catalogue(ctx: &Ctx) -> Vec<Scenario> {
+    let quick = ctx.tier == crate::common::Tier::Quick;
+    let rounds = ctx.opt_u64("rounds", ctx.tier.pick(1, 20));
+    let mut g = Gen { rng: Rng::for_case(ctx.seed, 0xC02, 0), out: Vec::new(), round: 0 };
+    for round in 0..rounds {
+        g.round = round;
+        g.rng = Rng::for_case(ctx.seed, 0xC02, round);
+        one_round(&mut g, quick);
+    }
+    let mut out = g.out;
+    // deal the scenarios to the cells in a seeded order, so the slow (timeout) ones spread out
+    let mut rng = Rng::for_case(ctx.seed, 0xC02_5, 0);
+    rng.shuffle(&mut out);
+    for (i, s) in out.iter_mut().enumerate() {
+        s.idx = i;
+        for (j, r) in s.reqs.iter_mut().enumerate() {
+            r.id = ((i as u64) << 4 | j as u64) + 16;
+        }
+    }
+    out
+}
+
+// ---- cells --------------------------------------------------------------------------------------
+
+fn run_cell(ctx: &Ctx, cell_idx: u64, n_cells: u64, all: &[Scenario], only: Option<&[usize]>, rep: &mut Report) {
+    let mine: Vec<&Scenario> = all
+        .iter()
+        .filter(|s| s.idx as u64 % n_cells == cell_idx && only.is_none_or(|o| o.contains(&s.idx)))
+        .collect();
+    if mine.is_empty() {
+        return;
+    }
+    let cell = match Cell::start() {
+        Ok(c) => c,
+        Err(e) => {
+            rep.broken(&format!("cell {cell_idx}: {e}"));
+            return;
+        }
+    };
+    let next = AtomicUsize::new(0);
+    let base = rep.fork();
+    let lanes: Vec<Report> = std::thread::scope(|s| {
+        let hs: Vec<_> = (0..LANES.min(mine.len()))
+            .map(|lane| {
+                let (next, mine, cell, base) = (&next, &mine, &cell, &base);
+                std::thread::Builder::new()
+                    .name(format!("c02-{cell_idx}-{lane}"))
+                    .spawn_scoped(s, move || {
+                        let mut r = base.fork();
+                        loop {
+                            let i = next.fetch_add(1, Ordering::SeqCst);
+                            if i >= mine.len() {
+                                break;
+                            }
+                            if ctx.out_of_time() && ctx.replay.is_none() {
+                                r.obs("scenarios_not_started_budget_exhausted", 1);
+                                continue;
+                            }
+                            if let Err(p) = guard(|| run_and_judge(ctx, cell, cell_idx, mine[i], &mut r)) {
+                                r.broken(&format!("harness panic in scenario {}: {} at {}", mine[i].idx, p.message, p.location));
+                            }
+                        }
+                        r
+                    })
+                    .expect("spawn lane")
+            })
+            .collect();
+        hs.into_iter().map(|h| h.join().unwrap_or_else(|_| base.fork())).collect()
+    });
+    for l in lanes {
+        rep.merge(l);
+    }
+    rep.obs_max("h2c_streams_sharing_one_backend_connection", cell.state.h2c_max_streams.load(Ordering::SeqCst) as u64);
+    rep.obs_max("h1_requests_on_one_backend_connection", cell.state.h1_max_reuse.load(Ordering::SeqCst) as u64);
+    rep.obs("backend_connections/h1", cell.state.h1_conns.load(Ordering::SeqCst) as u64);
+    rep.obs("backend_connections/h2c", cell.state.h2c_conns.load(Ordering::SeqCst) as u64);
+    for e in cell.state.errors.lock().unwrap().iter() {
+        rep.obs("backend_script_errors", 1);
+        rep.sample(json!({"backend_script_error": e}));
+    }
+    let counters = cell.worker.probe.counters();
+    for (k, v) in &counters {
+        if k.ends_with(".wouldblock") || k.ends_with(".closed") || k.ends_with(".error") || k.ends_with(".partial") {
+            rep.obs(&format!("sozu_{k}"), *v);
+        }
+    }
+    let Cell { worker, .. } = cell;
+    for p in worker.stop() {
+        if p.in_sozu() {
+            rep.violation(
+                &p.signature(),
+                &format!("the worker panicked while answering faulty exchanges: {} at {}", p.message, p.location),
+                json!({"case": cell_idx, "seed": ctx.seed, "panic": p.message, "location": p.location,
+                       "scenarios_of_the_cell": mine.iter().map(|s| s.idx).collect::<Vec<_>>()}),
+            );
+        } else {
+            rep.broken(&format!("worker thread panicked outside sozu: {} at {}", p.message, p.location));
+        }
+    }
+}
+
+pub fn run(ctx: &Ctx) -> Report {
+    let mut rep = Report::new(
+        "fault_enumeration",
+        "catalogue of faults (routing outcome; scripted HTTP/1.1 backend: close or RST after k response bytes for EVERY k of a short response in 4 framings and boundary ks of a 40 KB one, silence before/mid head/mid body, garbage, idle close around the next request; scripted h2c backend: RST_STREAM(code), GOAWAY, close, silence at 3 stages, no SETTINGS ack; client never finishing) x moment (after the request, during its upload) x front (h1/tcp, h1/tls, h2/tls) x multiplexing (single, keep-alive 2..6 with the fault at each position, 2..8 H2 streams with exactly one faulty); a scenario is non-trivial when it injects a fault; distinct = distinct (front, multiplexing, position, fault, framing, moment) shapes",
+    );
+    rep.max_samples = 10;
+    rep.assume("the cause -> status table is the one of the property statement; causes it does not name (garbage, h2c RST_STREAM before a response, idle-close race, missing SETTINGS ack, client stalling mid body) are recorded under exempt/other and only judged for exactly-once, truncation, bounded time and siblings");
+    rep.assume("an abort before any byte was relayed is accepted when the backend had already sent part of its response head (the statement allows an abort 'once a response has started' without saying whose view counts)");
+    rep.assume("HTTP/1.1 requests sent behind the faulty one on the same connection are only judged when sozu kept the connection open");
+    rep.assume("time bound per request: max(governing timeout, largest configured timeout = 2 s; connect 1 s x 3 attempts for refused backends) + 3 s slack; a miss is re-run once alone and only counts when it reproduces");
+    lab::raise_fd_limit();
+    EXTRA_WAIT_MS.store(ctx.opt_u64("extra_wait_ms", 0), Ordering::Relaxed);
+    for k in [
+        "cause/no_route",
+        "cause/denied",
+        "cause/wrong_certificate",
+        "cause/per_ip_limit",
+        "cause/no_backend",
+        "cause/connect_refused",
+        "cause/backend_closed/before_response",
+        "cause/backend_closed/mid_head",
+        "cause/backend_closed/response_started",
+        "cause/backend_reset/before_response",
+        "cause/backend_silent/before_response",
+        "cause/backend_silent/response_started",
+        "cause/client_never_finishes_head",
+        "cause/h2c_closed/before_response",
+        "cause/h2c_rst_stream/response_started",
+        "cause/idle_close_then_next",
+        "pair/h1tcp-h1",
+        "pair/h1tls-h1",
+        "pair/h2tls-h1",
+        "pair/h1tcp-h2c",
+        "pair/h1tls-h2c",
+        "pair/h2tls-h2c",
+        "mux/single",
+        "mux/keepalive",
+        "mux/h2streams",
+        "siblings_verified/h2_streams",
+        "siblings_verified/keepalive_before_fault",
+        "siblings_verified/sharing_h2c_backend_cluster",
+        "held/status_matches_cause",
+        "held/explicit_abort_after_response_started",
+        "moment/fault_while_request_body_in_flight",
+    ] {
+        rep.require(k);
+    }
+    // a replay file carries the seed and the tier its scenario indices refer to
+    let mut ctx_owned = ctx.clone();
+    let mut replay_cells: BTreeMap<u64, Vec<usize>> = BTreeMap::new();
+    if let Some(path) = &ctx.replay {
+        let v: Value = serde_json::from_str(&std::fs::read_to_string(path).unwrap_or_default()).unwrap_or(Value::Null);
+        if let Some(seed) = v["seed"].as_u64() {
+            ctx_owned.seed = seed;
+        }
+        match v["tier"].as_str() {
+            Some("thorough") => ctx_owned.tier = crate::common::Tier::Thorough,
+            Some("quick") => ctx_owned.tier = crate::common::Tier::Quick,
+            _ => {}
+        }
+        if let Some(o) = v["opts"].as_object() {
+            for (k, val) in o {
+                if let Some(val) = val.as_str() {
+                    ctx_owned.opts.entry(k.clone()).or_insert(val.to_owned());
+                }
+            }
+        }
+        for w in v["witnesses"].as_array().cloned().unwrap_or_default() {
+            if let (Some(c), Some(s)) = (w["case"].as_u64(), w["scenario"]["scenario"].as_u64()) {
+                replay_cells.entry(c).or_default().push(s as usize);
+            } else if let Some(c) = w["case"].as_u64() {
+                replay_cells.entry(c).or_default();
+            }
+        }
+    }
+    let ctx = &ctx_owned;
+    let all = catalogue(ctx);
+    let n_cells = ctx.opt_u64("cells", ctx.tier.pick(48, 192)).max(1);
+    rep.set("scenarios_in_catalogue", json!(all.len()));
+    rep.set("cells", json!(n_cells));
+
+    if ctx.replay.is_some() {
+        rep.required.clear();
+        for (c, scs) in replay_cells {
+            let only = if scs.is_empty() { None } else { Some(scs.as_slice()) };
+            run_cell(ctx, c, n_cells, &all, only, &mut rep);
+        }
+        return rep;
+    }
+
+    if let Some(o) = ctx.opt("only") {
+        // debugging aid: run only the listed scenario indices (or every scenario of a group)
+        let only: Vec<usize> = if o.chars().all(|c| c.is_ascii_digit() || c == ',') {
+            o.split(',').filter_map(|x| x.parse().ok()).collect()
+        } else {
+            all.iter().filter(|s| s.tag == o).map(|s| s.idx).collect()
+        };
+        rep.required.clear();
+        par_cases(ctx, &mut rep, n_cells, |c, r| run_cell(ctx, c, n_cells, &all, Some(&only), r));
+        return rep;
+    }
+    par_cases(ctx, &mut rep, n_cells, |c, r| run_cell(ctx, c, n_cells, &all, None, r));
+
+    // which exhaustive sub-spaces were really completed
+    let mut sweeps = Vec::new();
+    let mut all_complete = true;
+    let rounds = ctx.opt_u64("rounds", ctx.tier.pick(1, 20));
+    if rounds == 1 {
+        for fr in [Fr::Cl, Fr::Chunked, Fr::ClClose, Fr::ChunkedClose] {
+            let total = h1_response(1, 8, fr, 4).0.len() as u64;
+            for front in Front::ALL {
+                // k = 0 is run three times (fault on every attempt / first attempt only / first two)
+                let want = total + 2;
+                let got = rep.observed.get(&format!("sweep/{}/{}", fr.name(), front.name())).copied().unwrap_or(0);
+                all_complete &= got == want;
+                sweeps.push(json!({"what": "backend closes after k bytes of its response, every k", "framing": fr.name(), "front": front.name(),
+                                   "offsets": format!("0..{}", total - 1), "cases": got, "complete": got == want}));
+            }
+        }
+        rep.set("exhaustive_subspaces", json!(sweeps));
+        rep.set("exhaustive_subspaces_complete", json!(all_complete));
+    }
     rep
 }
